@@ -5,6 +5,6 @@ Import ListNotations.
 Definition push_call (w : world) (t o : nat) (spin : bool) : world :=
   let s := get w t in
   match pc s with
-  | OIdle => mk_w (once w) (runs w) (completed w) (early w) (lupd (thr w) t (mk_t (pc s) (calls s ++ [(o, spin)]) (returned s)))
+  | OIdle => set_thr w (lupd (thr w) t (mk_t (pc s) (cur s) (calls s ++ [(o, spin)]) (returned s)))
   | _ => w
   end.
